@@ -416,6 +416,8 @@ MEASURED_INLINE = {
 #                                            (`list.__iadd__` is `extend`: same iteration of `e`, same TypeError)
 #   N3  `yield from xs` (xs a plain local)  ->  `for v in xs: yield v`   (every consumer of the translated generators only
 #                                            iterates; no `send`/`throw`, and the value of the `yield from` is unused)
+#   N4  `map(str.m, e.split(…))`  ->  `(v.m() for v in e.split(…))`, and `list(map(…))` -> the list comprehension
+#                                            (`str.split` returns exact `str` objects, for which `str.m(v)` is `v.m()`)
 _MATCH_CALLS = {"match", "search", "fullmatch"}
 
 
@@ -464,6 +466,26 @@ class _X4Normaliser(ast.NodeTransformer):
             loop = ast.For(target=ast.Name(id=v, ctx=ast.Store()), iter=node.value.value,
                            body=[ast.Expr(value=ast.Yield(value=ast.Name(id=v, ctx=ast.Load())))], orelse=[], type_comment=None)
             return ast.copy_location(loop, node)
+        return node
+
+    def visit_Call(self, node):
+        self.generic_visit(node)
+        def as_genexp(c):
+            if isinstance(c, ast.Call) and isinstance(c.func, ast.Name) and c.func.id == "map" and len(c.args) == 2 and not c.keywords \
+                    and isinstance(c.args[0], ast.Attribute) and isinstance(c.args[0].value, ast.Name) and c.args[0].value.id == "str" \
+                    and isinstance(c.args[1], ast.Call) and isinstance(c.args[1].func, ast.Attribute) and c.args[1].func.attr == "split":
+                self.n = getattr(self, "n", 0) + 1
+                v = f"__mv{self.n}"
+                elt = ast.Call(func=ast.Attribute(value=ast.Name(id=v, ctx=ast.Load()), attr=c.args[0].attr, ctx=ast.Load()), args=[], keywords=[])
+                return elt, [ast.comprehension(target=ast.Name(id=v, ctx=ast.Store()), iter=c.args[1], ifs=[], is_async=0)]
+            return None
+        if isinstance(node.func, ast.Name) and node.func.id == "list" and len(node.args) == 1 and not node.keywords:       # N4
+            g = as_genexp(node.args[0])
+            if g is not None:
+                return ast.copy_location(ast.ListComp(elt=g[0], generators=g[1]), node)
+        g = as_genexp(node)
+        if g is not None:
+            return ast.copy_location(ast.GeneratorExp(elt=g[0], generators=g[1]), node)
         return node
 
     def visit_AugAssign(self, node):
